@@ -208,11 +208,6 @@ func (s *SpokFile) run(stream iostream.IOStream, runner shell.Runner, force bool
 		return nil, fmt.Errorf("Could not load spok cache file at %q: %s", cachePath, err)
 	}
 
-	// Whether or not we want to update the cache after running e.g.
-	// if there were no file dependencies to update or if the task
-	// did not succeed
-	updateCache := true
-
 	for _, taskToRun := range runOrder {
 		// Gather up all the files to be hashed into a single slice
 		var toHash []string
@@ -230,69 +225,47 @@ func (s *SpokFile) run(stream iostream.IOStream, runner shell.Runner, force bool
 
 		s.logger.Debug("Task %s depends on %d files", taskToRun.Name, len(toHash))
 
-		// If the task did not declare any file dependencies, let's not
-		// update the cache, this way it will always run
-		if len(toHash) == 0 {
-			updateCache = false
-		}
-
-		var hasher hash.Hasher
-		if force {
-			hasher = hash.AlwaysRun{}
-		} else {
-			hasher = hash.New()
-		}
-
+		// The digest always describes the real state of the dependencies, force only
+		// means we don't look at it when deciding whether or not to run
 		hashStart := time.Now()
-		currentDigest, err := hasher.Hash(toHash)
+		currentDigest, err := hash.New().Hash(toHash)
 		if err != nil {
 			return nil, err
 		}
 		s.logger.Debug("Calculated digest of %d files in %v", len(toHash), time.Since(hashStart))
 
-		// By the time we get here, we know the cache file will exist (even if it has no digests)
-		// so we can go ahead and load as normal. If a task is not in the cache, it means it was
-		// added to the spokfile since we last ran a cache, so add it to the current cachedState
-		cachedDigest, ok := cachedState.Get(taskToRun.Name)
-		if !ok {
-			cachedState.Set(taskToRun.Name, "")
-		}
+		// A task that is not in the cache was added to the spokfile since the cache was
+		// last written, it has no digest so it will run
+		cachedDigest, _ := cachedState.Get(taskToRun.Name)
 
 		s.logger.Debug("Task %s current checksum: %.15s cached checksum: %.15s", taskToRun.Name, currentDigest, cachedDigest)
 
-		var result shell.Results
-		skipped := false
-
-		switch {
-		case cachedDigest == "" || currentDigest != cachedDigest:
-			// The digest is either empty or out of date, in which case the action to be taken is the same
-			// update the cache digest and run the task
-			if updateCache {
-				cachedState.Set(taskToRun.Name, currentDigest)
-			}
-			result, err = taskToRun.Run(runner, stream, s.Env())
-			if err != nil {
-				return nil, fmt.Errorf("Task %q encountered an error: %w", taskToRun.Name, err)
-			}
-
-		case currentDigest == cachedDigest:
+		// A task with no file dependencies has nothing to compare so it always runs
+		if !force && len(toHash) != 0 && currentDigest == cachedDigest {
 			// This task has been run before and its digest has not changed, therefore
 			// we don't need to run it again
-			skipped = true
-			updateCache = false
+			results = append(results, task.Result{Task: taskToRun.Name, Skipped: true})
+			continue
+		}
+
+		result, err := taskToRun.Run(runner, stream, s.Env())
+		if err != nil {
+			return nil, fmt.Errorf("Task %q encountered an error: %w", taskToRun.Name, err)
+		}
+
+		// Whether or not this task is now up to date depends only on how this task went,
+		// record it straight away so that nothing that happens to the tasks after it
+		// (a skip, a failure, no file dependencies) can lose it
+		if result.Ok() && len(toHash) != 0 {
+			s.logger.Debug("Updating cached state for task %s", taskToRun.Name)
+			cachedState.Set(taskToRun.Name, currentDigest)
+			if err := cachedState.Dump(cachePath); err != nil {
+				return nil, err
+			}
 		}
 
 		// Gather up all the task results
-		results = append(results, task.Result{CommandResults: result, Task: taskToRun.Name, Skipped: skipped})
-	}
-
-	// Only update the cache if force was not set, the task declares file dependencies
-	// and the task run was successful
-	if !force && updateCache && results.Ok() {
-		s.logger.Debug("Updating cached state")
-		if err := cachedState.Dump(cachePath); err != nil {
-			return nil, err
-		}
+		results = append(results, task.Result{CommandResults: result, Task: taskToRun.Name})
 	}
 
 	return results, nil
